@@ -53,53 +53,75 @@ def setup(interp):
     heap.install(interp)
 
 
-def distinct(p, caps):
-    i_, j_ = z3.Ints("i_ j_")
-    n = z3.Length(caps.t)
-    p.assume(z3.ForAll([i_, j_], z3.Implies(z3.And(0 <= i_, i_ < j_, j_ < n), caps.t[i_] != caps.t[j_])))
-    p.assume(z3.ForAll([i_], z3.Implies(z3.And(0 <= i_, i_ < n), caps.t[i_] >= 0)))
+def distinct(p, lists):
+    """pairwise distinct caption objects, within and across the languages: every caption knows its language and
+    its index (an injective numbering - friendlier to the solver than 'for all i < j: caps[i] != caps[j]')"""
+    POS, LANG = z3.Function("POSITION_OF", INT, INT), z3.Function("LANGUAGE_OF", INT, INT)
+    j_ = z3.Int("j_")
+    for li, l in enumerate(lists):
+        p.assume(z3.ForAll([j_], z3.Implies(z3.And(0 <= j_, j_ < z3.Length(l.t)),
+                                            z3.And(POS(l.t[j_]) == j_, LANG(l.t[j_]) == li, l.t[j_] >= 0))))
 
 
 # ------------------------------------------------------------------------------- adjust_caption_timing
 
 def adjust(c):
     """every start/end t becomes t*skew+offset (the same float expression: uninterpreted), the
-    survivors are exactly the captions whose new start is >= 0, in order, nodes untouched.
+    survivors of EACH language are exactly its own captions whose new start is >= 0, in order, nodes
+    untouched - one or two languages, each of any length (also empty).
     Requires pairwise distinct caption objects (an aliased caption would be shifted twice)."""
     fmul, fadd = z3.Function("fmul", R, R, R), z3.Function("fadd", R, R, R)
-    F = z3.Function("F_kept", INT, SEQ)
+    F = z3.Function("F_kept", SEQ, INT, SEQ)
     p = cur()
-    caps = SymList(z3.Const("caps", SEQ), Caption)
-    n = z3.Length(caps.t)
-    distinct(p, caps)
+    k = c.pick("languages", [1, 2])
+    lists = [SymList(z3.Const(f"caps_{i}", SEQ), Caption) for i in range(k)]
+    distinct(p, lists)
     skew, offset = c.real("skew", 0, 4), c.real("offset", -10 ** 12, 10 ** 12)
-    others = SymList(z3.Const("other_language", SEQ), Caption)
-    cs = c.new(CaptionSet, _captions={"en": caps}, _styles={}, layout_info=None)
+    cs = c.new(CaptionSet, _captions={f"l{i}": lists[i] for i in range(k)}, _styles={}, layout_info=None)
     start0, end0 = heap_array(p, Caption, "start"), heap_array(p, Caption, "end")
     new = lambda t: fadd(fmul(t, skew.t), offset.t)
-    p.assume(F(0) == z3.Empty(SEQ))
+    for l in lists:
+        p.assume(F(l.t, 0) == z3.Empty(SEQ))
+    A = z3.Int("any_caption")              # an arbitrary caption of any language
 
-    def fdef(k):
-        return F(k + 1) == z3.If(new(start0[caps.t[k]]) >= 0, z3.Concat(F(k), z3.Unit(caps.t[k])), F(k))
+    def mapped(st, en, x):
+        return z3.And(st[x] == new(start0[x]), en[x] == new(end0[x]))
+
+    def same(st, en, x):
+        return z3.And(st[x] == start0[x], en[x] == end0[x])
+
+    def member(seq, x, lo, hi):
+        j = z3.Int("j_m")
+        return z3.Exists([j], z3.And(lo <= j, j < hi, seq[j] == x))
 
     def inv(S):
-        S.p.assume(fdef(S.i))
+        seq = S.seq.t
+        n = z3.Length(seq)
+        S.p.assume(F(seq, S.i + 1) == z3.If(new(start0[seq[S.i]]) >= 0, z3.Concat(F(seq, S.i), z3.Unit(seq[S.i])), F(seq, S.i)))
         j = z3.Int("j")
         st, en = S.field(Caption, "start"), S.field(Caption, "end")
-        return [("out_is_filter_of_prefix", as_seq(S.local("out_captions")) == F(S.i)),
-                ("prefix_mapped", z3.ForAll([j], z3.Implies(z3.And(0 <= j, j < S.i), z3.And(
-                    st[caps.t[j]] == new(start0[caps.t[j]]), en[caps.t[j]] == new(end0[caps.t[j]]))))),
-                ("suffix_untouched", z3.ForAll([j], z3.Implies(z3.And(S.i <= j, j < n), z3.And(
-                    st[caps.t[j]] == start0[caps.t[j]], en[caps.t[j]] == end0[caps.t[j]]))))]
+        idx = next(i for i, l in enumerate(lists) if l.t is seq or z3.eq(l.t, seq))
+        earlier = [l.t for l in lists[:idx]]
+        later = [l.t for l in lists[idx + 1:]]
+        clauses = [("out_is_filter_of_prefix", as_seq(S.local("out_captions")) == F(seq, S.i)),
+                   ("prefix_mapped", z3.ForAll([j], z3.Implies(z3.And(0 <= j, j < S.i), mapped(st, en, seq[j])))),
+                   ("suffix_untouched", z3.ForAll([j], z3.Implies(z3.And(S.i <= j, j < n), same(st, en, seq[j]))))]
+        for e in earlier:
+            clauses.append(("earlier_languages_stay_mapped", z3.ForAll([j], z3.Implies(z3.And(0 <= j, j < z3.Length(e)), mapped(st, en, e[j])))))
+        for e in later:
+            clauses.append(("later_languages_untouched_so_far", z3.ForAll([j], z3.Implies(z3.And(0 <= j, j < z3.Length(e)), same(st, en, e[j])))))
+        return clauses
     c.interp.loop_hooks[("pycaption.base:CaptionSet.adjust_caption_timing", 2)] = loop_rule(
         "adjust.loop", inv, locals_={"out_captions": ("seq", Caption)}, fields=[(Caption, "start"), (Caption, "end")])
     c.call(CaptionSet.adjust_caption_timing, cs, offset, skew, compare=False)
-    out = cs._captions["en"]
-    c.ensure("survivors_are_exactly_the_non_negative_starts_in_order", as_seq(out) == F(n))
     j = z3.Int("j")
     st, en = heap_array(p, Caption, "start"), heap_array(p, Caption, "end")
-    c.ensure("every_time_mapped_to_t_skew_plus_offset", z3.ForAll([j], z3.Implies(z3.And(0 <= j, j < n), z3.And(
-        st[caps.t[j]] == new(start0[caps.t[j]]), en[caps.t[j]] == new(end0[caps.t[j]])))))
+    c.ensure("languages_kept", list(cs._captions) == [f"l{i}" for i in range(k)])
+    for i, l in enumerate(lists):
+        out = cs._captions[f"l{i}"]
+        n = z3.Length(l.t)
+        c.ensure("survivors_are_exactly_the_non_negative_starts_in_order", as_seq(out) == F(l.t, n))
+        c.ensure("every_time_mapped_to_t_skew_plus_offset", z3.ForAll([j], z3.Implies(z3.And(0 <= j, j < n), mapped(st, en, l.t[j]))))
     c.ensure("nodes_untouched", heap_array(p, Caption, "nodes") is p.ghost["heap0"][("Caption", "nodes")])
 
 
@@ -171,41 +193,41 @@ def merge_handler(NEWCAP):
 
 
 def mcc(c):
-    """merge_concurrent_captions: the captions of a language are replaced by one merged caption per
-    maximal run of consecutive captions with identical (start, end), in order."""
+    """merge_concurrent_captions: the captions of EACH language are replaced by one merged caption per
+    maximal run of consecutive captions with identical (start, end), in order - one or two languages,
+    each of any length; a language without captions is left alone and does not stop the others."""
     p = cur()
-    caps = SymList(z3.Const("caps", SEQ), Caption)
-    n = z3.Length(caps.t)
-    distinct(p, caps)
+    k = c.pick("languages", [1, 2])
+    lists = [SymList(z3.Const(f"caps_{i}", SEQ), Caption) for i in range(k)]
+    distinct(p, lists)
     ST, EN = heap_array(p, Caption, "start"), heap_array(p, Caption, "end")
     NEWCAP = z3.Function("NEWCAP", SEQ, INT)
-    CONC = z3.Function("CONC_current_run", INT, SEQ)   # the run that element k-1 belongs to, so far
-    MS = z3.Function("MS_merged", INT, SEQ)            # merged captions of the runs completed before k
+    CONC = z3.Function("CONC_current_run", SEQ, INT, SEQ)   # the run that element k-1 belongs to, so far
+    MS = z3.Function("MS_merged", SEQ, INT, SEQ)            # merged captions of the runs completed before k
+    for l in lists:
+        p.assume(z3.And(CONC(l.t, 0) == z3.Empty(SEQ), MS(l.t, 0) == z3.Empty(SEQ)))
 
-    def same(a, b):
-        return z3.And(ST[caps.t[a]] == ST[caps.t[b]], EN[caps.t[a]] == EN[caps.t[b]])
-    p.assume(z3.And(CONC(0) == z3.Empty(SEQ), MS(0) == z3.Empty(SEQ)))
-
-    def defs(k):
+    def defs(seq, k_):
         # element k continues the current run iff it has the same (start, end) as element k-1;
         # otherwise the current run is complete: it is merged, and k starts a new run
-        cont = z3.And(k >= 1, same(k, k - 1))
+        cont = z3.And(k_ >= 1, ST[seq[k_]] == ST[seq[k_ - 1]], EN[seq[k_]] == EN[seq[k_ - 1]])
         return z3.And(
-            CONC(k + 1) == z3.If(cont, z3.Concat(CONC(k), z3.Unit(caps.t[k])), z3.Unit(caps.t[k])),
-            MS(k + 1) == z3.If(z3.Or(cont, k == 0), MS(k), z3.Concat(MS(k), z3.Unit(NEWCAP(CONC(k))))))
-    cs = c.new(CaptionSet, _captions={"en": caps}, _styles={}, layout_info=None)
+            CONC(seq, k_ + 1) == z3.If(cont, z3.Concat(CONC(seq, k_), z3.Unit(seq[k_])), z3.Unit(seq[k_])),
+            MS(seq, k_ + 1) == z3.If(z3.Or(cont, k_ == 0), MS(seq, k_), z3.Concat(MS(seq, k_), z3.Unit(NEWCAP(CONC(seq, k_))))))
+    cs = c.new(CaptionSet, _captions={f"l{i}": lists[i] for i in range(k)}, _styles={}, layout_info=None)
 
     def inv(S):
-        S.p.assume(defs(S.i))
+        seq = S.seq.t
+        S.p.assume(defs(seq, S.i))
         last = S.local("last_caption")
         conc = as_seq(S.local("concurrent_captions"))
         merged = as_seq(S.local("merged_captions"))
         lastc = heap.code_of(last)
         return [("nothing_before_the_first", z3.Implies(S.i == 0, z3.And(lastc == -1, z3.Length(conc) == 0))),
-                ("last_is_previous", z3.Implies(S.i >= 1, lastc == caps.t[S.i - 1])),
-                ("concurrent_is_current_run", conc == CONC(S.i)),
+                ("last_is_previous", z3.Implies(S.i >= 1, lastc == seq[S.i - 1])),
+                ("concurrent_is_current_run", conc == CONC(seq, S.i)),
                 ("current_run_non_empty", z3.Implies(S.i >= 1, z3.Length(conc) >= 1)),
-                ("merged_is_completed_runs", merged == MS(S.i))]
+                ("merged_is_completed_runs", merged == MS(seq, S.i))]
     c.interp.loop_hooks[("pycaption.base:merge_concurrent_captions", 2)] = loop_rule(
         "mcc.loop", inv, locals_={"last_caption": ("oref", Caption), "concurrent_captions": ("seq", Caption),
                                   "merged_captions": ("seq", Caption), "last_timespan": ("skip", None),
@@ -213,12 +235,15 @@ def mcc(c):
     c.interp.contracts["pycaption.base:merge"] = merge_handler(NEWCAP)
     r = c.call(merge_concurrent_captions, cs, compare=False)
     c.ensure("returns_the_same_set", r is cs)
-    out = cs._captions["en"]
-    if p.branch(n == 0):
-        c.ensure("empty_language_left_alone", out is caps)
-    else:
-        c.ensure("one_merged_caption_per_maximal_run_in_order",
-                 as_seq(out) == z3.Concat(MS(n), z3.Unit(NEWCAP(CONC(n)))))
+    c.ensure("languages_kept", list(cs._captions) == [f"l{i}" for i in range(k)])
+    for i, l in enumerate(lists):
+        out = cs._captions[f"l{i}"]
+        n = z3.Length(l.t)
+        if p.branch(n == 0):
+            c.ensure("empty_language_left_alone", out is l)
+        else:
+            c.ensure("one_merged_caption_per_maximal_run_in_order",
+                     as_seq(out) == z3.Concat(MS(l.t, n), z3.Unit(NEWCAP(CONC(l.t, n)))))
     c.ensure("input_captions_not_modified", all(heap_array(p, Caption, f) is p.ghost["heap0"][("Caption", f)]
                                                 for f in ("start", "end", "nodes", "style")))
 
@@ -313,6 +338,28 @@ def bounded(ctx, b):
                 exp_de = [(10 * skew + offset, 20 * skew + offset, [(CaptionNode.TEXT, "d")])] if 10 * skew + offset >= 0 else []
                 return got == exp and de == exp_de, {"starts": seq, "skew": skew, "offset": offset, "got": got, "expected": exp}
             b.guard(("adjust", seq, skew, offset), one, sample={"starts": seq, "skew": skew, "offset": offset}, nontrivial=n > 0)
+    # several languages, some of them without captions, in every order: each language on its own
+    def lang_caps(tag, spans):
+        return CaptionList([Caption(s_, e_, [T(f"{tag}{i}")]) for i, (s_, e_) in enumerate(spans)])
+    shapes = {"none": [], "runs": [(0, 10), (0, 10), (10, 20), (30, 40), (30, 40)], "one": [(5, 5)], "late": [(100, 200), (100, 200)]}
+    for order in itertools.permutations(shapes, 3):
+        def many(order=order):
+            mk = lambda: CaptionSet({f"l-{nm}": lang_caps(nm, shapes[nm]) for nm in order})
+            res = dump(merge_concurrent_captions(mk()))
+            for nm in order:
+                exp = [(sp[0], sp[1], sum(([(CaptionNode.BREAK, None)] * (1 if k else 0) + [(CaptionNode.TEXT, f"{nm}{i}")] for k, i in enumerate(idx)), []))
+                       for sp, idx in runs_of(shapes[nm])]
+                if res[f"l-{nm}"] != exp:
+                    return False, {"languages": order, "language": nm, "got": res[f"l-{nm}"], "expected": exp}
+            cs2 = mk()
+            cs2.adjust_caption_timing(offset=-50, rate_skew=1.0)
+            res2 = dump(cs2)
+            for nm in order:
+                exp = [(s_ - 50.0, e_ - 50.0, [(CaptionNode.TEXT, f"{nm}{i}")]) for i, (s_, e_) in enumerate(shapes[nm]) if s_ - 50 >= 0]
+                if res2[f"l-{nm}"] != exp:
+                    return False, {"languages": order, "language": nm, "adjusted": res2[f"l-{nm}"], "expected": exp}
+            return list(res) == [f"l-{nm}" for nm in order], {"languages": list(res)}
+        b.guard(("languages", order), many, sample={"languages": order})
     # users of the merge: the legacy / single-position writers write one <p> per run
     from refs import parsers
     for spans in itertools.product(spans_alphabet[:3], repeat=3):
